@@ -24,8 +24,11 @@ def inherited_names(directed):
 
 
 def obs_ops(r, directed):
+    # on the digraph both adjacency sides are observed (successors AND predecessors): an API call that empties one
+    # side only leaves interactions behind
     return [('nodes', r, None), ('inter', r, 'out_interactions' if directed else 'interactions', None, None),
-            ('ids', r), ('ips', r, None), ('stream', r), ('streamchk', r)]
+            ('ids', r), ('ips', r, None), ('stream', r), ('streamchk', r)] + \
+           ([('inter', r, 'in_interactions', None, None)] if directed else [])
 
 
 class C19(PropBase):
@@ -112,7 +115,7 @@ class C19(PropBase):
         for i, (op, r) in enumerate(zip(prog, ri)):
             if op[0] == 'clear' and op[1] == 0 and r == 'Done':
                 b = ri[i + 1:i + 1 + nobs]
-                if b[1] != [] or b[2] != [] or b[3] != [] or b[4] != []:
+                if b[1] != [] or b[2] != [] or b[3] != [] or b[4] != [] or (d and b[6] != []):
                     fails.append(dict(index=i, op=list(op), what='%s left interactions / snapshots / events behind: %r' % (op[2], b[1:5])))
                 if op[2] == 'clear' and b[0] != []:
                     fails.append(dict(index=i, op=list(op), what='clear left nodes behind'))
